@@ -1,79 +1,157 @@
 ------------------------------- MODULE MCIter -------------------------------
 (***************************************************************************)
-(* Iterator protocol model.  Enumerates EVERY call sequence over           *)
-(* {next, next_back, len, size_hint} up to Depth on an iterator over N     *)
-(* slots, runs an implementation-shaped cursor machine on it and checks    *)
-(* the machine against the contract:                                       *)
+(* Iterator protocol model.  Enumerates EVERY call sequence up to Depth on *)
+(* an iterator over N slots, runs an implementation-shaped cursor machine  *)
+(* on it and checks the machine against the contract.  The contract side   *)
+(* is the ghost range gf..gb-1 of slots still owed (the same forward       *)
+(* accounting as IterProto!RemSeq / PosWalk):                              *)
 (*   NoDup      no slot is yielded twice                                   *)
 (*   NoPanic    no call panics (cursor arithmetic is checked arithmetic)   *)
-(*   LenExact   every reported len / size_hint is the number still to come *)
+(*   LenExact   every reported len / size_hint / count is the number owed  *)
 (*   Fused      after None, None                                           *)
+(*   PosExact   every call yields exactly the slot the contract dictates:  *)
+(*              next the first owed, next_back / last the last owed,       *)
+(*              nth(k) / nth_back(k) the k-th from their end; fold / rfold *)
+(*              everything owed, front to back / back to front             *)
+(* Call alphabet (a call is a pair <<code, k>>):                           *)
+(*   base  0 next, 1 next_back, 2 len, 3 size_hint                         *)
+(*   Ext   + 4 nth(k), 5 nth_back(k) for k in 0..2, and the consuming      *)
+(*         calls 6 last, 7 count, 8 fold, 9 rfold, which end a sequence    *)
 (* Machines (Impl):                                                        *)
 (*  "single"  double_priority_queue::iterators::IterMut as of 2.3.1: ONE   *)
 (*            cursor `pos` used by next (pos += 1) and next_back           *)
 (*            (pos -= 1), len() = queue length, size_hint = default        *)
+(*            (base alphabet only: a record of defect D3)                  *)
 (*  "pair"    front/back cursors (IndexMap's own iterators, which Iter,    *)
-(*            IntoIter and Drain delegate to; and IterMut after the fix)   *)
-(*  "fwd"     priority_queue::iterators::IterMut: forward only, no len     *)
+(*            IntoIter and Drain delegate to; and IterMut after the fix);  *)
+(*            nth / nth_back move a cursor by k+1 and exhaust the range    *)
+(*            when it is too short; last = next_back; count = back-front   *)
+(*  "fwd"     priority_queue::iterators::IterMut: forward only, no len;    *)
+(*            nth / last / count / fold are std's defaults (repeated next) *)
 (* Every explored call sequence is emitted (CALLS lines) and replayed on   *)
 (* the real iterators, whose recorded results TLC validates (IterProto).   *)
 (***************************************************************************)
 EXTENDS Integers, Sequences, FiniteSets, TLC, Json
 
-CONSTANTS N, Depth, Impl, Emit
-VARIABLES calls, front, back, yielded, out, reports, sawNone, lateYield
+CONSTANTS N, Depth, Impl, Emit, Ext
+VARIABLES calls, front, back, yielded, out, reports, sawNone, lateYield, gf, gb, mispos, ended
 
-vars == <<calls, front, back, yielded, out, reports, sawNone, lateYield>>
+vars == <<calls, front, back, yielded, out, reports, sawNone, lateYield, gf, gb, mispos, ended>>
 Init == calls = <<>> /\ front = 0 /\ back = N /\ yielded = <<>> /\ out = "ok" /\ reports = <<>>
-        /\ sawNone = FALSE /\ lateYield = FALSE
+        /\ sawNone = FALSE /\ lateYield = FALSE /\ gf = 0 /\ gb = N /\ mispos = FALSE /\ ended = FALSE
 
-Alphabet == IF Impl = "fwd" THEN {0, 3} ELSE {0, 1, 2, 3}
+Ks == 0..2
+BaseAlphabet == IF Impl = "fwd" THEN {<<0, 0>>, <<3, 0>>} ELSE {<<0, 0>>, <<1, 0>>, <<2, 0>>, <<3, 0>>}
+ExtAlphabet  == IF Impl = "single" THEN {}
+                ELSE IF Impl = "fwd" THEN {<<4, k>> : k \in Ks} \cup {<<6, 0>>, <<7, 0>>, <<8, 0>>}
+                ELSE {<<4, k>> : k \in Ks} \cup {<<5, k>> : k \in Ks} \cup {<<6, 0>>, <<7, 0>>, <<8, 0>>, <<9, 0>>}
+Alphabet == BaseAlphabet \cup (IF Ext THEN ExtAlphabet ELSE {})
 
+Owed == gb - gf
+Range(a, b) == [i \in 1..(IF b > a THEN b - a ELSE 0) |-> a + i - 1]      \* a, a+1, .., b-1
+RevRange(a, b) == [i \in 1..(IF b > a THEN b - a ELSE 0) |-> b - i]     \* b-1, .., a
+
+\* ---------------------------------------------------------------- the contract (ghost range gf..gb-1)
+WantYield(c, k) ==
+  CASE c = 0 -> IF gf < gb THEN <<gf>> ELSE <<>>
+    [] c = 1 -> IF gf < gb THEN <<gb - 1>> ELSE <<>>
+    [] c = 4 -> IF gf + k < gb THEN <<gf + k>> ELSE <<>>
+    [] c = 5 -> IF gb - k > gf THEN <<gb - k - 1>> ELSE <<>>
+    [] c = 6 -> IF gf < gb THEN <<gb - 1>> ELSE <<>>
+    [] c = 8 -> Range(gf, gb)
+    [] c = 9 -> RevRange(gf, gb)
+    [] OTHER -> <<>>
+GhostFront(c, k) ==
+  CASE c = 0 -> IF gf < gb THEN gf + 1 ELSE gf
+    [] c = 4 -> IF gf + k < gb THEN gf + k + 1 ELSE gb
+    [] c \in {6, 7, 8, 9} -> gb
+    [] OTHER -> gf
+GhostBack(c, k) ==
+  CASE c = 1 -> IF gf < gb THEN gb - 1 ELSE gb
+    [] c = 5 -> IF gb - k > gf THEN gb - k - 1 ELSE gf
+    [] OTHER -> gb
+
+\* ---------------------------------------------------------------- the machines
 \* the slot yielded by a call, <<>> for None
 FrontYield == CASE Impl = "single" -> IF front < N THEN <<front>> ELSE <<>>
                 [] OTHER           -> IF front < back THEN <<front>> ELSE <<>>
 BackYield  == CASE Impl = "single" -> IF front < N THEN <<front>> ELSE <<>>      \* uses the SAME cursor
                 [] OTHER           -> IF front < back THEN <<back - 1>> ELSE <<>>
-RemainingTrue == N - Len(yielded)
 LenReport  == CASE Impl = "single" -> N                                          \* pq.len()
                 [] OTHER           -> back - front
 HintReport == CASE Impl = "single" -> <<0, -1>>                                  \* default size_hint
                 [] Impl = "fwd"    -> <<0, -1>>
                 [] OTHER           -> <<back - front, back - front>>
+\* (machines "pair" and "fwd" only)
+MachYield(c, k) ==
+  CASE c = 0 -> FrontYield
+    [] c = 1 -> BackYield
+    [] c = 4 -> IF front + k < back THEN <<front + k>> ELSE <<>>
+    [] c = 5 -> IF back - k > front THEN <<back - k - 1>> ELSE <<>>
+    [] c = 6 -> IF front < back THEN <<back - 1>> ELSE <<>>
+    [] c = 8 -> Range(front, back)
+    [] c = 9 -> RevRange(front, back)
+    [] OTHER -> <<>>
+MachFront(c, k) ==
+  CASE c = 0 -> IF front < back THEN front + 1 ELSE front
+    [] c = 4 -> IF front + k < back THEN front + k + 1 ELSE back
+    [] c \in {6, 7, 8, 9} -> back
+    [] OTHER -> front
+MachBack(c, k) ==
+  CASE c = 1 -> IF front < back THEN back - 1 ELSE back
+    [] c = 5 -> IF back - k > front THEN back - k - 1 ELSE front
+    [] OTHER -> back
 
-Call(c) ==
-  /\ out = "ok" /\ Len(calls) < Depth /\ c \in Alphabet
-  /\ calls' = Append(calls, c)
-  /\ CASE c = 0 -> /\ yielded' = yielded \o FrontYield
-                   /\ front' = IF Impl = "single" \/ front < back THEN front + 1 ELSE front
-                   /\ lateYield' = (lateYield \/ (sawNone /\ FrontYield # <<>>))
-                   /\ sawNone' = (sawNone \/ FrontYield = <<>>)
-                   /\ UNCHANGED <<back, out, reports>>
-       [] c = 1 -> /\ yielded' = yielded \o BackYield
-                   /\ lateYield' = (lateYield \/ (sawNone /\ BackYield # <<>>))
-                   /\ sawNone' = (sawNone \/ BackYield = <<>>)
-                   /\ IF Impl = "single"
-                      THEN IF front = 0 THEN out' = "panic" /\ UNCHANGED <<front, back>>    \* pos -= 1 overflows
+Call(ck) ==
+  LET c == ck[1]  k == ck[2] IN
+  /\ out = "ok" /\ ~ended /\ Len(calls) < Depth /\ ck \in Alphabet
+  /\ calls' = Append(calls, ck)
+  /\ ended' = (c \in {6, 7, 8, 9})
+  /\ gf' = GhostFront(c, k) /\ gb' = GhostBack(c, k)
+  /\ IF Impl = "single"
+     THEN CASE c = 0 -> /\ yielded' = yielded \o FrontYield
+                        /\ front' = front + 1
+                        /\ mispos' = (mispos \/ FrontYield # WantYield(c, k))
+                        /\ lateYield' = (lateYield \/ (sawNone /\ FrontYield # <<>>))
+                        /\ sawNone' = (sawNone \/ FrontYield = <<>>)
+                        /\ UNCHANGED <<back, out, reports>>
+            [] c = 1 -> /\ yielded' = yielded \o BackYield
+                        /\ mispos' = (mispos \/ BackYield # WantYield(c, k))
+                        /\ lateYield' = (lateYield \/ (sawNone /\ BackYield # <<>>))
+                        /\ sawNone' = (sawNone \/ BackYield = <<>>)
+                        /\ IF front = 0 THEN out' = "panic" /\ UNCHANGED <<front, back>>    \* pos -= 1 overflows
                            ELSE front' = front - 1 /\ UNCHANGED <<back, out>>
-                      ELSE /\ back' = IF front < back THEN back - 1 ELSE back
-                           /\ UNCHANGED <<front, out>>
-                   /\ UNCHANGED reports
-       [] c = 2 -> /\ reports' = Append(reports, <<LenReport, LenReport, RemainingTrue>>)
-                   /\ UNCHANGED <<front, back, yielded, out, sawNone, lateYield>>
-       [] c = 3 -> /\ reports' = Append(reports, <<HintReport[1], HintReport[2], RemainingTrue>>)
-                   /\ UNCHANGED <<front, back, yielded, out, sawNone, lateYield>>
+                        /\ UNCHANGED reports
+            [] c = 2 -> /\ reports' = Append(reports, <<LenReport, LenReport, Owed>>)
+                        /\ UNCHANGED <<front, back, yielded, out, sawNone, lateYield, mispos>>
+            [] c = 3 -> /\ reports' = Append(reports, <<HintReport[1], HintReport[2], Owed>>)
+                        /\ UNCHANGED <<front, back, yielded, out, sawNone, lateYield, mispos>>
+     ELSE /\ yielded' = yielded \o MachYield(c, k)
+          /\ front' = MachFront(c, k) /\ back' = MachBack(c, k)
+          /\ mispos' = (mispos \/ (c \notin {2, 3, 7} /\ MachYield(c, k) # WantYield(c, k)))
+          /\ lateYield' = (lateYield \/ (sawNone /\ MachYield(c, k) # <<>>))
+          /\ sawNone' = (sawNone \/ (c \in {0, 1} /\ MachYield(c, k) = <<>>))
+          /\ reports' = CASE c = 2 -> Append(reports, <<LenReport, LenReport, Owed>>)
+                          [] c = 3 -> Append(reports, <<HintReport[1], HintReport[2], Owed>>)
+                          [] c = 7 -> Append(reports, <<back - front, back - front, Owed>>)
+                          [] OTHER -> reports
+          /\ out' = out
 
-Next == \E c \in 0..3 : Call(c)
+Next == \E ck \in Alphabet : Call(ck)
 
 \* ------------------------------------------------------------------ the contract
 NoDup    == \A i, j \in 1..Len(yielded) : i # j => yielded[i] # yielded[j]
 NoPanic  == out = "ok"
 Fused    == ~lateYield
-\* lower bound <= remaining <= upper bound; equality when an exact size is declared (Impl # "fwd")
+PosExact == ~mispos
+\* lower bound <= owed <= upper bound; equality when an exact size is declared (Impl # "fwd") and for count
 LenExact == \A i \in 1..Len(reports) :
-              IF Impl = "fwd" THEN reports[i][1] <= reports[i][3] /\ (reports[i][2] = -1 \/ reports[i][3] <= reports[i][2])
+              IF Impl = "fwd" /\ reports[i][2] = -1 THEN reports[i][1] <= reports[i][3]
               ELSE reports[i][1] = reports[i][3] /\ reports[i][2] = reports[i][3]
 InRange  == \A i \in 1..Len(yielded) : yielded[i] \in 0..(N-1)
 
-EmitInv == (Emit /\ (Len(calls) = Depth \/ out # "ok")) => PrintT(<<"CALLS", ToJson([n |-> N, calls |-> calls])>>)
+\* base sequences are emitted as plain codes, extended ones as [code, k] pairs
+Emitted == IF Ext THEN calls ELSE [i \in 1..Len(calls) |-> calls[i][1]]
+\* (an Ext run emits only the sequences that use an extended call: the others come from the base run)
+EmitInv == (Emit /\ (Len(calls) = Depth \/ out # "ok" \/ ended) /\ (~Ext \/ \E i \in 1..Len(calls) : calls[i][1] >= 4)) => PrintT(<<"CALLS", ToJson([n |-> N, calls |-> Emitted])>>)
 =============================================================================
